@@ -238,11 +238,12 @@ def row_dict(entries, conv):
     d = {}
     for e in entries:
         v = conv(e[1])
+        if v is None: v = float('nan')          # non-finite value printed by the harness as ()
         d[e[0]] = d.get(e[0], 0) + v
     return d
 def rows_close(ri, rm, tol=1e-9):
     for k in set(ri) | set(rm):
-        if abs(float(ri.get(k, 0)) - float(rm.get(k, 0))) > tol: return False
+        if not abs(float(ri.get(k, 0)) - float(rm.get(k, 0))) <= tol: return False
     return True
 
 def affine_check(w, apex, x, rng_coefs, tight, cond=1.):
@@ -250,6 +251,7 @@ def affine_check(w, apex, x, rng_coefs, tight, cond=1.):
     cond: size of the coordinates relative to the mesh (the barycentric system is solved in absolute coordinates)"""
     tol_s = max(1e-12, 2e-14 * cond) if tight else 5e-6
     vals = [float(v) for v in w.values()]
+    if any(v != v or abs(v) == float('inf') for v in vals): return 'non-finite weight'
     if any(v < 0 for v in vals): return 'negative weight %r' % min(vals)
     s = sum(vals)
     if abs(s - 1) > tol_s: return 'weights sum to %.17g' % s
@@ -384,6 +386,7 @@ def check_turbo(ctx, exe, runner, hv, viol):
             dist_in = min(min(u[d], (ts['nx'][d] - 1) - u[d]) for d in range(ts['n']))     # > 0: strictly inside the meshed box
             if w:
                 tight = min(float(v) for v in w.values()) > 1e-5 and len(w) == ts['n'] + 1
+                if any(float(v) != float(v) for v in w.values()): tight = False
                 msg = affine_check(w, apex, pts[k], coefs, tight, cond)
                 if msg:
                     # is the row simply the row of another sample (rows shifted)?
@@ -573,7 +576,8 @@ def check_operators(ctx, exe, runner, hv, viol):
         cv = gen_cov(rng, m['n'])
         nn = 64
         v = [dy(F(rng.randint(-64, 64), 16)) for _ in range(nn)]
-        cases.append([2, mesh_sx(kind, m, hv), cov_sx(cv), v])
+        dst = [dy(F(rng.randint(-64, 64), 16)) for _ in range(nn)]
+        cases.append([2, mesh_sx(kind, m, hv), cov_sx(cv), v, dst])
         ctx.dist('op_%s_%dd' % (kind, m['n'])); ctx.dist('op_nu_%s' % cv['param'])
     cf = write_cases(ctx, 'ops', cases)
     rc_i, impl = run_impl(ctx, exe, cf, timeout=900)
@@ -583,15 +587,16 @@ def check_operators(ctx, exe, runner, hv, viol):
         ii = impl[i] if i < len(impl) else None
         if ii is None or (ii and ii[0] == -997):
             viol('crash:precision-op', 'the harness produced no answer (crash) while building the precision operators', {'case': sx_str(c)}); H.append(None); continue
-        n, S, lam, cf_, free, cs, train, Q, dfree, dcs, S2, lam2, cf2, v = ii
+        n, S, lam, cf_, free, cs, train, Q, dfree, dcs, S2, lam2, cf2, v, dst0, addf, addc = ii
         h = {'n': n, 'S': [[undy(x) for x in r] for r in S], 'lam': [undy(x) for x in lam], 'c': [undy(x) for x in cf_],
              'free': [undy(x) for x in free], 'cs': [undy(x) for x in cs], 'train': [undy(x) for x in train],
              'Q': [[undy(x) for x in r] for r in Q], 'dfree': [undy(x) for x in dfree], 'dcs': [undy(x) for x in dcs], 'v': [undy(x) for x in v],
-             'same': S == S2 and lam == lam2 and cf_ == cf2}
+             'same': S == S2 and lam == lam2 and cf_ == cf2,
+             'dst': [undy(x) for x in dst0], 'addf': [undy(x) for x in addf], 'addc': [undy(x) for x in addc]}
         H.append(h)
         if any(x is None for r in h['S'] for x in r) or any(x is None for x in h['lam']):
             viol('precision-op:undefined-shift-operator', 'S or Lambda holds undefined values', {'case': sx_str(c)}); H[-1] = None; continue
-        mcases.append([2, n, S, lam, cf_, v]); midx.append(i)
+        mcases.append([2, n, S, lam, cf_, v, dst0]); midx.append(i)
     model = {}
     if runner is not None and mcases:
         mf = write_cases(ctx, 'opsmodel', mcases)
@@ -621,12 +626,21 @@ def check_operators(ctx, exe, runner, hv, viol):
         if asym > 1e-13 * qmax: viol('precision-op:Q-not-symmetric', 'getQ() is not symmetric: largest |Q_ij - Q_ji| = %.3g (max |Q_ij| %.3g)' % (float(asym), float(qmax)), rep)
         if asym != 0: ctx.cov['Q_rounding_asymmetry_max_rel'] = max(ctx.cov.get('Q_rounding_asymmetry_max_rel', 0.), float(asym / qmax))
         Qs = [[(Q[a][b] + Q[b][a]) / 2 for b in range(n)] for a in range(n)]
-        piv = ldl_pivots(Qs, exact=n <= 40)
+        piv = ldl_pivots(Qs, exact=n <= 26)
         if len(piv) < n or piv[-1] <= 0:
             viol('precision-op:Q-not-positive-definite', 'getQ(): pivot %d of the LDL\' factorisation is %.3g' % (len(piv) - 1, float(piv[-1])), rep)
         dq = [Q[a][a] for a in range(n)]
         if vdiff(h['dfree'], dq) > 1e-10 * qn or vdiff(h['dcs'], dq) > 1e-10 * qn:
             viol('precision-op:extractDiag', 'extractDiag differs from the diagonal of Q: matrix-free %.3g, assembled %.3g' % (vdiff(h['dfree'], dq), vdiff(h['dcs'], dq)), rep)
+        # addToDest contract (ALinearOp): destination + Q.v for both forms
+        want = [float(h['dst'][a]) + Qv[a] for a in range(n)]
+        dn = scale + max(abs(float(x)) for x in h['dst'])
+        if vdiff(h['addc'], want) > 1e-10 * dn:
+            viol('precision-op:addToDest-assembled', 'PrecisionOpCs::addToDest(v, d) differs from d + Q.v by %.3g' % vdiff(h['addc'], want), rep)
+        if vdiff(h['addf'], want) > 1e-10 * dn:
+            viol('precision-op:addToDest-matrix-free-overwrites-destination',
+                 'PrecisionOp::addToDest(v, d) differs from d + Q.v by %.3g: it returns %s' % (vdiff(h['addf'], want),
+                 'Q.v (the destination is overwritten)' if vdiff(h['addf'], Qv) <= 1e-10 * dn else 'something else'), rep)
         hyp = all(x >= 0 for x in h['c']) and h['c'][0] > 0 and all(x > 0 for x in h['lam'])
         if not hyp: ctx.notes.append('hypotheses of C15_Q_pd not met on an operator case (coefficients %s)' % [float(x) for x in h['c']])
         ctx.count(sx_str(c), True)
@@ -635,11 +649,16 @@ def check_operators(ctx, exe, runner, hv, viol):
         m = model[i]
         if m and m[0] == -999: print('ERROR: model rejected operator case'); sys.exit(3)
         mfree, masm, mcum, mtrain, mhorner, mQ = [[unq(x) for x in m[k]] for k in range(5)] + [[[unq(x) for x in r] for r in m[5]]]
+        maddf, maddc = [unq(x) for x in m[6]], [unq(x) for x in m[7]]
+        if vdiff(h['addf'], maddf) > 1e-10 * dn or vdiff(h['addc'], maddc) > 1e-10 * dn:
+            viol('model-drift:precision-op:addToDest', 'impl and model differ on addToDest (matrix-free %.3g, assembled %.3g): correspondence coq/C15/ModelOp.v '
+                 'no longer checks' % (vdiff(h['addf'], maddf), vdiff(h['addc'], maddc)), rep, found=False)
         if mfree != masm or mtrain != mfree:
             viol('model-internal:free-vs-assembled', 'the model\'s two forms differ exactly (theorem C15_free_eq_assembled would be false)', rep, found=False)
         d1 = vdiff(h['free'], mfree); d2 = vdiff(h['cs'], masm)
         dQ = max(abs(float(Q[a][b]) - float(mQ[a][b])) for a in range(n) for b in range(n))
-        if d1 > 1e-10 * scale or d2 > 1e-10 * scale or dQ > 1e-10 * qn:
+        impl_consistent = vdiff(h['free'], h['cs']) <= 1e-10 * scale and vdiff(h['cs'], Qv) <= 1e-10 * scale
+        if (d1 > 1e-10 * scale or d2 > 1e-10 * scale or dQ > 1e-10 * qn) and impl_consistent:
             which = 'evalDirect' if d1 > 1e-10 * scale else ('build_Q' if dQ > 1e-10 * qn else 'Q.v')
             viol('model-drift:precision-op:' + which, 'impl and model differ (matrix-free %.3g, assembled %.3g, entries of Q %.3g; scale %.3g) while both impl forms agree: '
                  'correspondence coq/C15/ModelOp.v no longer checks' % (d1, d2, dQ, scale), rep, found=False)
@@ -675,7 +694,7 @@ def check_solvers(ctx, exe, hv, viol):
         rep = {'case': sx_str(c)}
         if ii is None or (ii and ii[0] == -997):
             viol('crash:spde-solve', 'the harness produced no answer (crash) on a conditional solve', rep); continue
-        n, ndat, Q, A, rhs, xc, xf, qc, qf, ldc, y1, kc, kf, q1, q0, ld1, var_api, ll1, ll0, Aout, ncg = ii
+        n, ndat, Q, A, rhs, xc, xf, qc, qf, ldc, y1, kc, kf, q1, q0, ld1, var_api, ll1, ll0, Aout, ncg, kn1, kn0, var_new = ii
         Q = [[float(undy(x)) for x in r] for r in Q]
         var = float(undy(c[5])); z = [float(undy(x)) for x in c[4]]
         Ad = [[0.] * n for _ in range(ndat)]
@@ -735,6 +754,17 @@ def check_solvers(ctx, exe, hv, viol):
             viol('spde-kriging:cholesky', 'krigingSPDE (Cholesky) differs from A_out (Q + A\'A/s2)^-1 A\'z/s2 by %.3g' % max(abs(x - y) for x, y in zip(kcv, k_ref)), rep)
         if max(abs(x - y) for x, y in zip(kfv, k_ref)) > 2e-3 * ks:
             viol('spde-kriging:cg', 'krigingSPDE (conjugate gradient) differs from the Cholesky result by %.3g' % max(abs(x - y) for x, y in zip(kfv, kcv)), rep)
+        # krigingSPDENew (SPDEOpMatrix / matrix-free SPDEOp with Eigen CG, tolerance 1e-5): same system with the nugget as data variance
+        s2n = float(undy(var_new))
+        xn_ = solve_float(cond_matrix(s2n), [sum(Ad[r][a] * z[r] for r in range(ndat)) / s2n for a in range(n)])
+        kn_ref = [sum(Ao[r][a] * xn_[a] for a in range(n)) for r in range(nout)]
+        kns = 1 + max(abs(x) for x in kn_ref)
+        kn1v = [float(undy(x)) if undy(x) is not None else float('nan') for x in kn1]
+        kn0v = [float(undy(x)) if undy(x) is not None else float('nan') for x in kn0]
+        if len(kn1v) != nout or not max(abs(x - y) for x, y in zip(kn1v, kn_ref)) <= 1e-8 * kns:
+            viol('spde-kriging-new:cholesky', 'krigingSPDENew (Cholesky) %s differs from A_out (Q + A\'A/s2)^-1 A\'z/s2 = %s' % (kn1v, kn_ref), rep)
+        if len(kn0v) != nout or not max(abs(x - y) for x, y in zip(kn0v, kn_ref)) <= 2e-3 * kns:
+            viol('spde-kriging-new:matrix-free-vs-cholesky', 'krigingSPDENew through the matrix-free solver gives %s, through Cholesky %s' % (kn0v, kn1v), rep)
         q1v, q0v = float(undy(q1)), float(undy(q0))
         if abs(q1v - q0v) > 2e-3 * (1 + abs(q1v)): viol('spde-likelihood:quadratic-term', 'quadratic term of the likelihood: Cholesky %.12g, CG %.12g' % (q1v, q0v), rep)
         ctx.count(sx_str(c), True)
